@@ -196,7 +196,7 @@ pub fn main(args: Args) {
         report(&run, i, n_gates, o);
         run.finish(&[]);
     }
-    let n = args.budget("cases", 30, 400);
+    let n = args.budget("cases", 80, 600);
     let seed = args.seed;
     let run2 = run.clone();
     // the C compiler dominates: fewer parallel jobs than cores keeps the machine usable
